@@ -46,8 +46,8 @@ def joint_shannon_entropy(stringX, stringY):
 
     :return: a real number representing the joint Shannon entropy between the given strings, in bits
     """
-    X = np.array(list(stringX))
-    Y = np.array(list(stringY))
+    X = np.array(list(stringX), dtype=object)
+    Y = np.array(list(stringY), dtype=object)
     joint_symbol_probabilities = []
     for x in set(X):
         for y in set(Y):
